@@ -86,6 +86,8 @@ pub struct Report {
 
 impl Report {
     pub fn new(opts: &Opts, level: &'static str, rule: &str) -> Self {
+        // the evidence schema only knows these levels
+        assert!(matches!(level, "exploration" | "fault_enumeration" | "model_checking" | "proof" | "translation_validation" | "other"), "unknown level {level}");
         Report {
             prop: opts.prop.clone(),
             tier: opts.tier,
